@@ -50,6 +50,9 @@ func init() {
 			if o.Kind == KMap {
 				o.Suggested = []string{"os=", "arch=", "debug"}
 			}
+			if o.Kind == KInt && i%4 == 1 {
+				o.ArgName = "n" + strings.Repeat("x", 95) // a synopsis entry wider than the wrapping column
+			}
 			if o.Kind == KStrings && r.Chance(1, 2) {
 				o.SuggFn = []string{"dyn=", "dynb"}
 			}
